@@ -468,6 +468,10 @@ def _function_incompatibilities(old_function: Function, new_function: Function) 
                     new_param.kind is ParameterKind.var_positional
                     and old_param.kind is not ParameterKind.positional_only
                     and not has_variadic_kwargs,
+                    # Variadic positional to non-variadic, without variadic positional left.
+                    old_param.kind is ParameterKind.var_positional and not has_variadic_args,
+                    # Variadic keyword to non-variadic, without variadic keyword left.
+                    old_param.kind is ParameterKind.var_keyword and not has_variadic_kwargs,
                 ),
             )
             if incompatible_kind:
